@@ -8,6 +8,16 @@ TB = ("Trusted: go/ssa (source->SSA), the govc executor/contract evaluator, the 
       "externals and physical bounds are listed in the evidence file on every run.")
 
 CLAIMS = {
+ "C18": dict(
+   text="Deductive proof by induction over all call histories: each of the 16 setters has a two-state contract (own mask bit set, own value bit = polarity, every other bit unchanged, proved for all 2^64 data/mask states), a lemma function proves that the ghost words touched/last of the statement are an invariant preserved by every operation and established by the constructor, and the match-field constructor is proved to carry data and mask into an NXM_NX_CT_STATE field (class 1, field 105, masked, 8 bytes).",
+   note="Flag-to-bit mapping is the OVS CS_* numbering written as literals in the contracts. " + TB,
+   technique="contract-based deductive verification: two-state postconditions + inductive ghost-state lemma, QF_BV, z3/cvc5",
+   design="DESIGN.md section 4 C18"),
+ "C19": dict(
+   text="Deductive proof for all inputs: every Decoder read returns the big-endian value at the cursor and advances by exactly its width; every Encoder Put* appends exactly the big-endian bytes and preserves earlier contents (frame clause appends); alignment skips reach the next multiple of 8 from the enclosing message start, by at most 7, never backwards; SliceDecoder window and base offset; symmetry is proved as the inductive step over ALL encoder states (lemmaSymN) plus one mixed sequence; Header.Decode is proved to return an error for < 8 bytes with the deferred recover modelled (panic paths run the real deferred closure).",
+   note="bytes.Buffer.Write/WriteByte and bytes.Repeat are assumed contracts (append a copy; n zero bytes); binary.BigEndian.* and Buffer.Len/Bytes/Reset are executed from their GOROOT source. " + TB,
+   technique="contract-based deductive verification: WP over go/ssa with byte-memory model, QF_AUFBV, z3/cvc5",
+   design="DESIGN.md section 4 C19"),
  "C16": dict(
    text="Deductive proof for all inputs (no bound): every bit-range helper (mask, offset/width word, decode, both range "
         "constructors) is verified against a QF_BV postcondition taken from the property statement; the two-description "
